@@ -16,8 +16,8 @@ type StructMeta struct {
 func (s StructMeta) Reduce(ctx ReductionContext) (definitions.StructMetadata, error) {
 	reducedFields := make([]definitions.FieldMetadata, 0, len(s.Fields))
 	for _, field := range s.Fields {
-		if !field.IsEmbedded && !field.IsJsonVisible() {
-			// encoding/json never emits unexported fields nor fields tagged `json:"-"`
+		if !field.IsJsonVisible() {
+			// encoding/json never emits unexported fields nor fields (embedded ones included) tagged `json:"-"`
 			continue
 		}
 		reduced, err := field.Reduce(ctx)
